@@ -923,10 +923,14 @@ where
     }
 
     let next_unit = AtomicUsize::new(0);
+    #[cfg(echo_verif)]
+    crate::verif::begin_queue();
 
     std::thread::scope(|s| {
         let handles: Vec<_> = (0..workers)
             .map(|_| {
+                #[cfg(echo_verif)]
+                let verif_worker_ix = crate::verif::next_worker_ix();
                 let units = &units;
                 let next_unit = &next_unit;
                 let resolve_store = &resolve_store;
@@ -937,6 +941,8 @@ where
                     // Work-stealing loop: claim units until none remain
                     loop {
                         let unit_idx = next_unit.fetch_add(1, Ordering::Relaxed);
+                        #[cfg(echo_verif)]
+                        let unit_idx = crate::verif::claim(verif_worker_ix, unit_idx, units.len());
                         if unit_idx >= units.len() {
                             break;
                         }
